@@ -130,7 +130,7 @@ def caScript (finalizeAnswer : ExRes) (cb : CertBody) : List ExRes :=
    .ok (.authz ⟨1, false, .valid, []⟩), okOrder .ready, finalizeAnswer, okOrder .valid,
    .ok (.cert cb)]
 
-def acc1 : Acc := ⟨true, true, true, false, 100, 100, 100⟩
+def acc1 : Acc := ⟨true, true, true, false, 100, 100, 100, true⟩
 def cfg1 : Cfg := ⟨false, [⟨1, false, .http01⟩]⟩
 /-- A previously installed matching pair (key 7), next fresh key 8. -/
 def world1 (exs : List ExRes) (hks : List Bool) : World :=
